@@ -1421,7 +1421,7 @@ inline std::vector<Spec> specs(int purpose, const std::string &tier, const std::
 					{
 						if (extra == 1 && (pi % 3) != 1) continue;                 // commitment size n+1: a third of the permutations
 						if (c5 && n == 4 && (pi % 7) != 3) continue;
-						if (c5 && !thorough && n == 3 && (pi % 2) != 1) continue;
+						if (c5 && !thorough && n == 3 && pi != 3 && !(extra == 1 && pi == 1)) continue;
 						std::vector<size_t> p = perm_of(n, pi);
 						for (int mode = 0; mode < 3; mode++)
 							for (int opt = 0; opt < 2; opt++)
@@ -1446,7 +1446,7 @@ inline std::vector<Spec> specs(int purpose, const std::string &tier, const std::
 						{
 							if (extra == 1 && (pi % 3) != 1) continue;
 							if (c5 && n == 4 && (pi % 7) != 3) continue;
-							if (c5 && !thorough && n == 3 && (pi % 2) != 1) continue;
+							if (c5 && !thorough && n == 3 && (pi != 3 || extra == 1)) continue;
 							std::vector<size_t> p = perm_of(n, pi);
 							for (int proto = 0; proto < 2; proto++)
 								for (int mode = (proto == 1 ? 1 : 0); mode < 3; mode++)
@@ -1460,7 +1460,7 @@ inline std::vector<Spec> specs(int purpose, const std::string &tier, const std::
 					if (want("hoogh") && extra == 0 && li != 1)       // VRHE has no l_e: one run per distinct group
 						for (size_t r = 0; r < n; r++)
 						{
-							if (c5 && !thorough && n == 3 && r == 0) continue;
+							if (c5 && !thorough && n == 3 && r != 1) continue;
 							std::vector<size_t> p = rot_of(n, r);
 							for (int proto = 2; proto < 4; proto++)
 								for (int mode = (proto == 3 ? 1 : 0); mode < 3; mode++)
